@@ -245,7 +245,16 @@ func (in *interp) block(st *istate, b *ssa.BasicBlock, pred *ssa.BasicBlock) {
 			}
 			// the same symbolic condition was already decided on this path
 			if c.k == aSym {
-				if v, ok := st.decided[c.sym]; ok {
+				v, ok := st.decided[c.sym]
+				if !ok {
+					// the complementary comparison was decided earlier on this path
+					if nt := negatedTerm(c.sym); nt != "" {
+						if nv, nok := st.decided[nt]; nok {
+							v, ok = !nv, true
+						}
+					}
+				}
+				if ok {
 					if v {
 						in.block(st, b.Succs[0], b)
 					} else {
@@ -298,6 +307,32 @@ func (in *interp) block(st *istate, b *ssa.BasicBlock, pred *ssa.BasicBlock) {
 }
 
 func typeName(t types.Type) string { return typeStr(t) }
+
+// negatedTerm: "(A == B)" <-> "(A != B)" for a comparison term printed by binop.
+func negatedTerm(s string) string {
+	if !strings.HasPrefix(s, "(") || !strings.HasSuffix(s, ")") {
+		return ""
+	}
+	depth := 0
+	for i := 0; i < len(s); i++ {
+		switch s[i] {
+		case '(':
+			depth++
+		case ')':
+			depth--
+		case ' ':
+			if depth == 1 && i+4 <= len(s) {
+				switch s[i:i+4] {
+				case " == ":
+					return s[:i] + " != " + s[i+4:]
+				case " != ":
+					return s[:i] + " == " + s[i+4:]
+				}
+			}
+		}
+	}
+	return ""
+}
 
 func (in *interp) instr(st *istate, ins ssa.Instruction) {
 	switch x := ins.(type) {
@@ -562,7 +597,12 @@ func (in *interp) instr(st *istate, ins ssa.Instruction) {
 		if in.mapUpdateHook != nil {
 			in.mapUpdateHook(st, x, in.get(st, x.Map), in.get(st, x.Key), in.get(st, x.Value))
 		}
-	case *ssa.IndexAddr, *ssa.Index, *ssa.Lookup, *ssa.MakeSlice, *ssa.MakeMap, *ssa.MakeClosure, *ssa.Next, *ssa.DebugRef, *ssa.RunDefers, *ssa.Defer:
+	case *ssa.MakeMap:
+		// every executed make is a distinct, non-nil map
+		a := symv("makemap:"+x.Name(), x.Type())
+		a.nonnil = true
+		st.env[x] = a
+	case *ssa.IndexAddr, *ssa.Index, *ssa.Lookup, *ssa.MakeSlice, *ssa.MakeClosure, *ssa.Next, *ssa.DebugRef, *ssa.RunDefers, *ssa.Defer:
 		if v, ok := ins.(ssa.Value); ok {
 			ops := []string{}
 			for _, op := range ins.Operands(nil) {
@@ -635,6 +675,10 @@ func (in *interp) call(st *istate, c *ssa.Call) {
 	name := "?"
 	if b, ok := cc.Value.(*ssa.Builtin); ok {
 		name = b.Name()
+		if name == "len" && len(args) == 1 && args[0].k == aNil {
+			st.env[c] = constv(constant.MakeInt64(0), c.Type())
+			return
+		}
 		if name == "len" && len(args) == 1 && args[0].k == aConst && args[0].c.Kind() == constant.String {
 			st.env[c] = constv(constant.MakeInt64(int64(len(constant.StringVal(args[0].c)))), c.Type())
 			return
